@@ -785,3 +785,128 @@ def c11(tier, seed):
     c.cov["bounds"] = {"pairs": "all (N, M) in 0..6 x 0..6 plus (1,1024), (1024,1), (16,64), (2,8), (8,2); owned, & and &mut forms"}
     c.conform(binary, with_etys(owned, ["tk", "zst", "plain"]), "owned")
     return c.finish()
+
+
+# ---------------------------------------------------------------------------------------------
+# C15 / C16: heap interop and the allocator ledger
+# ---------------------------------------------------------------------------------------------
+def alloc_scenarios(lens, etys, prop, panics=True):
+    """Every alloc-feature operation, as scenarios with the recording allocator on.  The operation
+    under test is the last step.  With `panics`, closure-calling operations get an injected panic
+    at every call index."""
+    out = []
+
+    def add(steps, d, ety):
+        out.append({"case": d["op"], "prop": prop, "ety": ety, "alloc": True, "steps": steps, "d": dict(d, ety=ety)})
+
+    for ety in etys:
+        for n in lens:
+            for okind_op in ("generate", "default"):
+                if okind_op == "default" and ety == "plain":
+                    pass
+                add([{"op": okind_op, "n": n, "okind": "box"}], {"op": "boxed_" + okind_op, "n": n}, ety)
+                if panics and okind_op == "generate":
+                    for k in range(n if n <= 3 else 0, n) if n > 3 else range(n):
+                        add([{"op": "generate", "n": n, "okind": "box", "panic_at": k}], {"op": "boxed_generate", "n": n, "panic_at": k}, ety)
+            for cnt in sorted({max(n - 1, 0), n, n + 1}):
+                for op in ("try_boxed_from_iter", "boxed_from_iter"):
+                    add([{"op": op, "n": n, "okind": "box", "script": [1] * cnt, "hint": [0, -1]}], {"op": op, "n": n, "items": cnt}, ety)
+            if panics:
+                for k in range(min(n, 3) + 1):
+                    add([{"op": "try_boxed_from_iter", "n": n, "okind": "box", "script": [1] * k + [2], "hint": [0, -1]}], {"op": "try_boxed_from_iter", "n": n, "source_panics_at": k}, ety)
+            # O(1) conversions and their failing twins
+            add([_mk("box", n), {"op": "into_boxed_slice", "recv": [1]}], {"op": "into_boxed_slice", "n": n}, ety)
+            add([_mk("box", n), {"op": "into_vec", "recv": [1]}], {"op": "into_vec", "n": n}, ety)
+            add([_mk("box", n), {"op": "box_into_iter", "recv": [1]}], {"op": "box_into_iter", "n": n}, ety)
+            add([_mk("box", n), {"op": "box_into_iter", "recv": [1]}, {"op": "release", "h": 2}], {"op": "box_into_iter+drop", "n": n}, ety)
+            add([_mk("box", n), {"op": "unbox", "recv": [1]}], {"op": "unbox", "n": n}, ety)
+            add([_mk("arr", n), {"op": "box_new", "recv": [1]}], {"op": "box_new", "n": n}, ety)
+            add([_mk("arr", n), {"op": "vec_from_arr", "recv": [1]}], {"op": "vec_from_arr", "n": n}, ety)
+            add([_mk("arr", n), {"op": "bslice_from_arr", "recv": [1]}], {"op": "bslice_from_arr", "n": n}, ety)
+            for l in sorted({0, max(n - 1, 0), n, n + 1}):
+                add([_mk("bslice", l), {"op": "try_from_boxed_slice", "recv": [1], "arg": n}], {"op": "try_from_boxed_slice", "n": n, "l": l}, ety)
+                add([_mk("bslice", l), {"op": "arr_try_from_bslice", "recv": [1], "arg": n}], {"op": "arr_try_from_bslice", "n": n, "l": l}, ety)
+                for cap in (0, 2):
+                    add([{"op": "mk", "n": l, "kind": "vec", "cap": cap}, {"op": "try_from_vec", "recv": [1], "arg": n}], {"op": "try_from_vec", "n": n, "l": l, "spare": cap}, ety)
+                    add([{"op": "mk", "n": l, "kind": "vec", "cap": cap}, {"op": "arr_try_from_vec", "recv": [1], "arg": n}], {"op": "arr_try_from_vec", "n": n, "l": l, "spare": cap}, ety)
+            # functional operations on boxes
+            pas = [-1] + (list(range(n)) if panics and n <= 3 else ([0, n - 1] if panics and n else []))
+            for pa in pas:
+                add([_mk("box", n), {"op": "map", "recv": [1], "form": ["own"], "panic_at": pa}], {"op": "box_map", "n": n, "panic_at": pa}, ety)
+                add([_mk("box", n), {"op": "fold", "recv": [1], "form": ["own"], "panic_at": pa}], {"op": "box_fold", "n": n, "panic_at": pa}, ety)
+                add([_mk("box", n), _mk("box", n), {"op": "zip", "recv": [1, 2], "form": ["own", "own"], "panic_at": pa}], {"op": "box_zip", "n": n, "panic_at": pa}, ety)
+            add([_mk("box", n), {"op": "clone", "recv": [1], "form": ["ref"]}], {"op": "box_clone", "n": n}, ety)
+            if panics and ety == "tk":
+                for cp in range(1, min(n, 3) + 1):
+                    s = {"case": "box_clone", "prop": prop, "ety": ety, "alloc": True, "fuse_clone": [cp],
+                         "steps": [_mk("box", n), {"op": "clone", "recv": [1], "form": ["ref"]}], "d": {"op": "box_clone", "n": n, "cpan": cp, "ety": ety}}
+                    out.append(s)
+    return out
+
+
+def alloc_failure_scenarios(c, binary, scns, name):
+    """Second pass: for every non-panicking scenario, one copy per allocator call its last operation
+    made, with that call reporting failure (runs until the process dies; classified from stderr)."""
+    import copy
+    path = os.path.join(c.dir, name + ".trace.ndjson")
+    cases = vlib.split_cases(path)
+    by = {s["case"]: s for s in scns}
+    out = []
+    for cname, lines in cases:
+        s = by.get(cname)
+        if s is None or any(st.get("panic_at", -1) >= 0 for st in s["steps"]) or s.get("fuse_clone") or "source_panics_at" in s["d"]:
+            continue
+        # allocator calls inside the last call bracket
+        idx = [i for i, l in enumerate(lines) if l.startswith('{"ev":"call"')]
+        if not idx:
+            continue
+        seg = lines[idx[-1]:]
+        k = 0
+        for l in seg:
+            if l.startswith('{"ev":"ret"') or l.startswith('{"ev":"unwound"'):
+                break
+            if l.startswith('{"ev":"alloc"') or l.startswith('{"ev":"realloc"'):
+                k += 1
+        for j in range(1, k + 1):
+            t = copy.deepcopy(s)
+            t["case"] = s["d"]["op"] + "-fail"
+            t["steps"][-1]["fail_at"] = j
+            t["d"] = dict(s["d"], fail_at=j)
+            out.append(t)
+    return out
+
+
+# (Box::clone of a large array is std's `Box::new((**self).clone())` and is not among the constructors
+#  the property names; it overflows a small stack in debug builds by design of std, so it is not demanded.)
+BIG_OPS = ["default_boxed", "generate", "box_arr_repeat", "boxed_from_iter", "try_boxed_from_iter", "boxed_map"]
+
+
+@check("C15")
+def c15(tier, seed):
+    c = Check("C15", tier, seed)
+    binary = vlib.build_harness()
+    r = c.mc("MC_Heap", "MC_Heap")
+    lens = [0, 1, 2, 3, 4, 8] if tier == "quick" else [0, 1, 2, 3, 4, 8, 16, 97, 1024]
+    scns = [s for s in alloc_scenarios(lens, ["tk", "zst", "plain"], "C15", panics=False)
+            if s["d"]["op"] not in ("box_map", "box_fold", "box_zip", "box_clone")]
+    c.cov["bounds"] = {"N": lens, "source lengths": "0, N-1, N, N+1", "vec capacity": "len and len+2"}
+    c.conform(binary, scns, "conversions")
+    big = [{"case": "big", "prop": "C15", "d": {"op": op}} for op in BIG_OPS]
+    c.conform(binary, big, "big-on-small-stack", sub="big")
+    c.assumptions.append("O(1) rule: no allocator event between call and ret and the same block id afterwards, measured by the harness's recording global allocator")
+    return c.finish()
+
+
+@check("C16")
+def c16(tier, seed):
+    c = Check("C16", tier, seed)
+    binary = vlib.build_harness()
+    r = c.mc("MC_Heap", "MC_Heap")
+    lens = [0, 1, 2, 3] if tier == "quick" else [0, 1, 2, 3, 4, 8]
+    scns = alloc_scenarios(lens, ["tk", "zst", "plain"], "C16", panics=True)
+    c.conform(binary, scns, "ledger", nontrivial=lambda s: True)
+    fails = alloc_failure_scenarios(c, binary, [s for s in scns if tier != "quick" or s["ety"] != "plain"], "ledger")
+    c.cov["fault_points"] = len(fails)
+    c.conform(binary, fails, "alloc-failure", nontrivial=lambda s: True)
+    c.cov["bounds"] = {"N": lens, "faults": "a panic at every closure call; a failure at every allocator call each operation makes"}
+    return c.finish()
